@@ -16,11 +16,11 @@ from .tlaval import iter_dump, parse_value
 from .tlc import MachineryError, run_jobs, shard_jobs, validate_trace
 
 FAMILIES_QUICK = [("point", 3, 1, None), ("multipoint", 3, 2, None), ("line", 3, 32, range(0, 10)),
-                  ("multiline", 3, 128, range(0, 6)), ("polygon", 3, 32, range(0, 10)), ("holed", 5, 128, range(0, 10)),
+                  ("multiline", 3, 128, range(0, 6)), ("polygon", 3, 32, range(0, 10)), ("holed", 5, 128, range(0, 8)), ("holedrot", 5, 8, None),
                   ("multipolygon", 3, 128, range(0, 6)), ("holedmulti", 6, 8, range(0, 2))]
 FAMILIES_THOROUGH = [("point", 4, 2, None), ("multipoint", 3, 4, None), ("line", 3, 16, None),
                      ("line4", 3, 64, None), ("multiline", 3, 64, None), ("polygon", 3, 16, None),
-                     ("holed", 5, 64, None), ("multipolygon", 3, 64, None), ("holedmulti", 6, 8, None)]
+                     ("holed", 5, 64, None), ("holedrot", 5, 8, None), ("multipolygon", 3, 64, None), ("holedmulti", 6, 8, None)]
 
 
 def generate(chk: Check, families, module="MC_BoxHit", seqname="BOXSEQ"):
@@ -228,7 +228,10 @@ def rand_element(rng, kind, lim):
             # a small hole around the star's centre (TLC decides whether the polygon is valid)
             cx = sum(v[0] for v in shell[:-1]) // (len(shell) - 1)
             cy = sum(v[1] for v in shell[:-1]) // (len(shell) - 1)
-            h = [[cx, cy], [cx + 1, cy], [cx + 1, cy + 1], [cx, cy + 1], [cx, cy]]
+            sd = rng.choice([1, 3, 4])
+            h = [[cx, cy], [cx + sd, cy], [cx + sd, cy + sd], [cx, cy + sd], [cx, cy]]
+            k = rng.randrange(4)
+            h = h[k:4] + h[:k] + [h[k]]                        # start the hole at any of its corners
             a2 = sum(shell[i][0] * shell[i + 1][1] - shell[i + 1][0] * shell[i][1] for i in range(len(shell) - 1))
             if a2 > 0:
                 h.reverse()
@@ -263,6 +266,15 @@ def record_traces(chk: Check, n_arrays, lim_choices=(3, 6, 20, 200, 4000)):
                     x1 += 1
                 if y0 == y1:
                     y1 += 1
+            if kind in ("polygon", "multipolygon") and chk.rng.random() < 0.4:
+                # a box strictly inside some hole, when there is one large enough
+                holes = [r for e in elems if not e["null"] for part in e["g"] for r in part[1:]]
+                if holes:
+                    hr = chk.rng.choice(holes)
+                    hx = sorted(v[0] for v in hr)
+                    hy = sorted(v[1] for v in hr)
+                    if hx[-1] - hx[0] >= 3 and hy[-1] - hy[0] >= 3:
+                        x0, x1, y0, y1 = hx[0] + 1, hx[-1] - 1, hy[0] + 1, hy[-1] - 1
             box = geom.corner_orders((x0, y0, x1, y1))[chk.rng.randrange(4)]
             got = np.asarray(arr.intersects_bounds(box))
             chk.count(n)
